@@ -102,8 +102,9 @@ func c02FirstUse(cached bool, rounds, par int, seed uint64) string {
 }
 
 type c02CycleOp struct {
-	Op string `json:"op"` // get, update, close, pass
-	Sp int    `json:"sp,omitempty"`
+	Op  string `json:"op"` // get, update, close, pass
+	Sp  int    `json:"sp,omitempty"`
+	Sub bool   `json:"sub,omitempty"` // get: SubScope(spelling) instead of Tagged({spelling: 1})
 }
 
 type c02CycleCase struct {
@@ -121,11 +122,12 @@ func c02GenCycle(r *Rng) c02CycleCase {
 		c.Shards = 4
 	}
 	nsp := r.Range(2, 3)
-	c.Ops = append(c.Ops, c02CycleOp{Op: "get", Sp: r.Intn(nsp)})
+	sub := r.Chance(40) // the whole case derives by SubScope names instead of tag keys
+	c.Ops = append(c.Ops, c02CycleOp{Op: "get", Sp: r.Intn(nsp), Sub: sub})
 	for j, nj := 0, r.Range(6, 16); j < nj; j++ {
 		switch x := r.Intn(20); {
 		case x < 7:
-			c.Ops = append(c.Ops, c02CycleOp{Op: "get", Sp: r.Intn(nsp)})
+			c.Ops = append(c.Ops, c02CycleOp{Op: "get", Sp: r.Intn(nsp), Sub: sub})
 		case x < 12:
 			c.Ops = append(c.Ops, c02CycleOp{Op: "update"})
 		case x < 18:
@@ -143,6 +145,13 @@ func c02GenCycle(r *Rng) c02CycleCase {
 // the last Update of a gauge before its scope was closed (or before the end) must have been delivered:
 // a closed scope is reported before it is dropped, whoever drops it.
 func c02Cycle(c *c02CycleCase) string {
+	g, _ := c02CycleBoth(c)
+	return g
+}
+
+// c02CycleBoth also increments a counter of the scope by one with every update and returns, as second
+// result, whether the counter deliveries of the whole run add up to the increments (used by C01).
+func c02CycleBoth(c *c02CycleCase) (gaugeFail, counterFail string) {
 	log := &Log{}
 	opts := tally.ScopeOptions{OmitCardinalityMetrics: true, SanitizeOptions: &tally.SanitizeOptions{
 		NameCharacters:       tally.ValidCharacters{Ranges: tally.AlphanumericRange, Characters: tally.UnderscoreDashCharacters},
@@ -162,8 +171,10 @@ func c02Cycle(c *c02CycleCase) string {
 		pending float64
 		has     bool
 		gauge   tally.Gauge
+		ctr     tally.Counter
 		how     string
 	}
+	incs := int64(0)
 	objs := map[tally.Scope]*st{} // keeps every scope object referenced: identities are not reused
 	var cur tally.Scope
 	next := 500.0
@@ -172,11 +183,16 @@ func c02Cycle(c *c02CycleCase) string {
 		switch o.Op {
 		case "get":
 			sp := c02Spellings[o.Sp%len(c02Spellings)]
-			cur = root.Tagged(map[string]string{sp: "1"})
-			if objs[cur] == nil {
-				objs[cur] = &st{gauge: cur.Gauge("g")}
+			if o.Sub {
+				cur = root.SubScope(sp)
+				hist = append(hist, fmt.Sprintf("SubScope(%q)", sp))
+			} else {
+				cur = root.Tagged(map[string]string{sp: "1"})
+				hist = append(hist, fmt.Sprintf("Tagged{%q:1}", sp))
 			}
-			hist = append(hist, fmt.Sprintf("Tagged{%q:1}", sp))
+			if objs[cur] == nil {
+				objs[cur] = &st{gauge: cur.Gauge("g"), ctr: cur.Counter("c")}
+			}
 		case "update":
 			if cur == nil || objs[cur].closed {
 				continue
@@ -184,6 +200,8 @@ func c02Cycle(c *c02CycleCase) string {
 			next++
 			s := objs[cur]
 			s.gauge.Update(next)
+			s.ctr.Inc(1)
+			incs++
 			s.pending, s.has = next, true
 			s.how = strings.Join(hist, "; ")
 			hist = append(hist, fmt.Sprintf("Update(%v)", next))
@@ -208,9 +226,27 @@ func c02Cycle(c *c02CycleCase) string {
 	}
 	for _, s := range objs {
 		if s.has && !delivered[s.pending] {
-			return fmt.Sprintf("history: %s; final pass. The gauge updated to %v (its last update before its scope was closed / before the end) was never delivered with that value; deliveries: %v",
+			gaugeFail = fmt.Sprintf("history: %s; final pass. The gauge updated to %v (its last update before its scope was closed / before the end) was never delivered with that value; deliveries: %v",
 				strings.Join(hist, "; "), s.pending, c02Delivered(log))
+			break
 		}
 	}
-	return ""
+	var got int64
+	alloc := map[int64]bool{}
+	for _, e := range log.Snapshot() {
+		switch e.K {
+		case 1:
+			got += e.I[0]
+		case 11:
+			alloc[e.I[0]] = true
+		case 21:
+			if alloc[e.I[0]] {
+				got += e.I[1]
+			}
+		}
+	}
+	if got != incs {
+		counterFail = fmt.Sprintf("history: %s; final pass. The counters of these scopes were incremented %d times (each before its scope's Close); %d delivered in total", strings.Join(hist, "; "), incs, got)
+	}
+	return
 }
